@@ -43,10 +43,11 @@ From PVGen Require Import Lit LitSpec LitClass Proofs.LitNum Proofs.LitP Proofs.
 Theorem C20_arm_tables :
   lit_into_ty_arms = model_lit_into_ty_arms /\
   lit_as_rvalue_arms = [ ([(LPMap, CPLazyStaticRef)], FFalse); ([(LPMap, CPMap)], FFalse); ([(LPMap, CPBTreeMap)], FFalse);
-                         ([(LPList, CPLazyStaticRef)], FFalse); ([(LPList, CPMap)], FFalse); ([(LPList, CPBTreeMap)], FFalse) ] /\
-  ident_into_ty_arms = [ ([(CPStr, CPFastStr)], FTrue);
+                         ([(LPList, CPLazyMap)], FFalse); ([(LPList, CPLazyStaticRef)], FFalse);
+                         ([(LPList, CPMap)], FFalse); ([(LPList, CPBTreeMap)], FFalse) ] /\
+  ident_into_ty_arms = [ ([(CPAny, CPAdtNewType)], FDyn); ([(CPStr, CPFastStr)], FTrue); ([(CPStr, CPString)], FFalse);
                          ([(CPAdtEnum, CPI64); (CPAdtEnum, CPI32); (CPAdtEnum, CPI16); (CPAdtEnum, CPI8)], FTrue) ] /\
-  int_float_casts = [(CPF32, CPF32); (CPF64, CPF64)] /\ int_bool_test = (true, 0).
+  int_float_casts = [(CPF32, CPF32); (CPF64, CPF64); (CPOrderedF64, CPF64)] /\ int_bool_test = (true, 0).
 Proof.
   exact (conj lit_into_ty_arms_pinned (conj lit_as_rvalue_arms_pinned (conj ident_into_ty_arms_pinned
            (conj (proj1 lit_scalars_pinned) (proj1 (proj2 lit_scalars_pinned)))))).
@@ -64,11 +65,13 @@ Theorem C20_literal_meaning : forall parse_f64 S,
 Proof. exact literal_meaning. Qed.
 Print Assumptions C20_literal_meaning.
 
-(* FULL statement wanted: on every well-typed literal the lowering returns a value.  It is REFUTED by the four witnesses
-   below; what holds: the only failures (panic or otherwise) on well-typed literals are inside the decidable classes.
+(* FULL statement wanted: on every well-typed literal the lowering returns a value.  It is REFUTED by the three witnesses
+   below (what is left after the repairs of F-14g / F-14i / F-14l and of the missing arms); what holds: the only failures
+   (panic or otherwise) on well-typed literals are inside the decidable classes.
    _partial also because (1) the hypothesis class_free_schema is about the whole schema (the generator lowers every default
-   of a crate; a panic anywhere leaves no emitted code), and (2) consts of container type are outside `const_simple`: their
-   own definitions are modelled (def_lit) but not specified (they can never be referenced: PCPathConvert). *)
+   of a crate; a panic anywhere leaves no emitted code), (2) consts of container type are outside `const_simple`: their own
+   definitions are modelled (def_lit, now also for sets) but not specified, and (3) the classes over-approximate: a const
+   whose type is a typedef strictly inside the target's typedef chain is accepted by the generator but not by path_ok. *)
 Theorem C20_lowering_total_partial : forall parse_f64 S,
   class_free_schema S = true -> forall t l,
   well_typed_lit parse_f64 S (erase t) l = true ->
@@ -79,48 +82,86 @@ Theorem C20_lowering_total_partial : forall parse_f64 S,
 Proof. exact lowering_total. Qed.
 Print Assumptions C20_lowering_total_partial.
 
-(* finding F-14g (class container-literal-inside-container-literal): a map literal below the top of a default *)
-Theorem C20_nested_map_literal_refuted : exists parse_f64 S t l,
-  well_typed_lit parse_f64 S (erase t) l = true /\ default_val_lit parse_f64 S t l = LPanic PUnexpectedLiteral /\
-  pclass_top S l (item_cty t) = Some PCNestedMap.
-Proof.
-  exists pf0, W_nested_map, (RVec (RMap RI8 RFastStr)), (LList [LMap [(LInt 1, LString [x78])]]).
-  exact (conj (proj1 nested_map_refuted) (conj (proj1 (proj2 nested_map_refuted)) (proj1 (proj2 (proj2 nested_map_refuted))))).
-Qed.
-Print Assumptions C20_nested_map_literal_refuted.
+(* REPAIRED (pilota-build fix F-14g, container literal inside container literal): a map literal below the top of a default
+   -- element of a list literal, value of a map literal, behind a typedef, member of a struct literal -- is lowered to
+   its IDL value (before the fix: panic!("unexpected literal")) *)
+Theorem C20_nested_map_literal_repaired :
+  default_val_lit pf0 W_nested_map (RVec (RMap RI8 RFastStr)) (LList [LMap [(LInt 1, LString [x78])]])
+    = LOk (GList [GMap [(GI8 1, GBytes [x78])]], false) /\
+  default_val_lit pf0 W_nested_map (RMap RI8 (RMap RI8 RFastStr)) (LMap [(LInt 1, LMap [(LInt 2, LString [x78])]); (LInt 3, LList [])])
+    = LOk (GMap [(GI8 1, GMap [(GI8 2, GBytes [x78])]); (GI8 3, GMap [])], false) /\
+  default_val_lit pf0 W_nested_map (RPath 1) (LMap [(LInt 1, LInt 2)]) = LOk (GMap [(GI8 1, GI8 2)], false) /\
+  default_val_lit pf0 W_nested_map (RPath 2) (LMap [(LString [x61], LInt 1); (LString [x6d], LMap [(LString [x6b], LInt 5)])])
+    = LOk (GStruct [(1, GI32 1); (2, GMap [(GBytes [x6b], GI32 5)])] [], false).
+Proof. exact (proj2 (proj2 nested_map_repaired)). Qed.
+Print Assumptions C20_nested_map_literal_repaired.
 
-(* finding F-14l (class enum-default-through-typedef): an enum member at a typedef of the enum *)
-Theorem C20_enum_through_typedef_refuted : exists parse_f64 S t l,
-  well_typed_lit parse_f64 S (erase t) l = true /\ default_val_lit parse_f64 S t l = LPanic PInvalidConvert /\
-  pclass_top S l (item_cty t) = Some PCPathConvert.
+(* REPAIRED (fix F-14l, enum default through typedef, and its siblings): an enum member and a const reference at a
+   typedef'd target (one or several typedefs) denote the member / the const (before: panic!("invalid convert")) *)
+Theorem C20_path_through_typedef_repaired :
+  default_val_lit pf0 W_enum_typedef (RPath 1) (LMember 0 1) = LOk (GEnum 1, true) /\
+  default_val_lit pf0 W_enum_typedef (RPath 2) (LConst 0) = LOk (GI32 7, true) /\
+  default_val_lit pf0 W_enum_typedef (RPath 4) (LConst 0) = LOk (GI32 7, true) /\
+  default_val_lit pf0 W_enum_typedef (RPath 3) (LConst 1) = LOk (GBytes [x6c], true).
 Proof.
-  exists pf0, W_enum_typedef, (RPath 1), (LMember 0 1).
-  exact (conj (proj1 enum_typedef_refuted) (conj (proj1 (proj2 enum_typedef_refuted)) (proj1 (proj2 (proj2 enum_typedef_refuted))))).
+  exact (conj (proj1 (proj2 (proj2 enum_typedef_repaired)))
+          (conj (proj1 (proj2 (proj2 (proj2 (proj2 enum_typedef_repaired)))))
+            (conj (proj1 (proj2 (proj2 (proj2 (proj2 (proj2 enum_typedef_repaired))))))
+                  (proj1 (proj2 (proj2 (proj2 (proj2 (proj2 (proj2 enum_typedef_repaired)))))))))).
 Qed.
-Print Assumptions C20_enum_through_typedef_refuted.
+Print Assumptions C20_path_through_typedef_repaired.
 
-(* finding F-14i (class const-of-set-type): the const item itself cannot be generated, with or without elements *)
-Theorem C20_const_of_set_refuted : exists parse_f64 S,
-  const_value parse_f64 S 0 = LPanic PAssertEmpty /\ const_value parse_f64 S 1 = LPanic PInvalidMapType /\
-  well_typed_lit parse_f64 S (erase (RSet RI32)) (LConst 0) = true /\
-  default_val_lit parse_f64 S (RSet RI32) (LConst 0) = LPanic PInvalidConvert.
+(* REPAIRED (fix F-14i, const of set type): the const item is generated, with or without elements (before: assert! /
+   panic!("invalid map type")) *)
+Theorem C20_const_of_set_repaired :
+  const_value pf0 W_const_set 0 = LOk (GSet [GI32 1; GI32 2]) /\ const_value pf0 W_const_set 1 = LOk (GSet []) /\
+  const_value pf0 W_const_set 2 = LOk (GSet [GBytes [x61]]).
+Proof. exact const_set_repaired. Qed.
+Print Assumptions C20_const_of_set_repaired.
+
+(* REPAIRED (new arms): an integer at a set<double> element / map key is the nearest double; a string const at a
+   `pilota.rust_type = "string"` field *)
+Theorem C20_missing_arms_repaired :
+  default_val_lit pf0 (mkLS [] []) (RSet ROrderedF64) (LList [LInt 1; LFloat [x32; x2e; x35]])
+    = LOk (GSet [GDouble 4607182418800017408; GDouble 4612811918334230528], false) /\
+  default_val_lit pf0 (mkLS [] []) (RMap ROrderedF64 RFastStr) (LMap [(LInt 3, LString [x78])])
+    = LOk (GMap [(GDouble 4613937818241073152, GBytes [x78])], false) /\
+  default_val_lit pf0 (mkLS [] [(RFastStr, LString [x78])]) RString (LConst 0) = LOk (GBytes [x78], false).
 Proof.
-  exists pf0, W_const_set.
-  exact (conj (proj1 const_set_refuted) (conj (proj1 (proj2 const_set_refuted))
-          (conj (proj1 (proj2 (proj2 const_set_refuted))) (proj1 (proj2 (proj2 (proj2 const_set_refuted))))))).
+  exact (conj (proj1 other_arms_repaired) (conj (proj1 (proj2 (proj2 other_arms_repaired)))
+          (proj1 (proj2 (proj2 (proj2 other_arms_repaired)))))).
 Qed.
-Print Assumptions C20_const_of_set_refuted.
+Print Assumptions C20_missing_arms_repaired.
 
-(* the pairs without an arm (FINDINGS.md, "Generator panics met while writing the corpus"): an integer at a set<double>
-   element *)
+(* still open, class no-arm: no literal of any kind can be the default of a `pilota.rust_wrapper_arc` field *)
 Theorem C20_no_arm_refuted : exists parse_f64 S t l,
   well_typed_lit parse_f64 S (erase t) l = true /\ default_val_lit parse_f64 S t l = LPanic PUnexpectedLiteral /\
   pclass_top S l (item_cty t) = Some PCNoArm.
 Proof.
-  exists pf0, (mkLS [] []), (RSet ROrderedF64), (LList [LInt 1]).
+  exists pf0, (mkLS [] []), (RArc RString), (LString [x61]).
   exact (conj (proj1 no_arm_refuted) (conj (proj1 (proj2 no_arm_refuted)) (proj1 (proj2 (proj2 no_arm_refuted))))).
 Qed.
 Print Assumptions C20_no_arm_refuted.
+
+(* still open, class path-convert: a REFERENCE to a const of container type (the const itself is generated now) *)
+Theorem C20_container_const_reference_refuted : exists parse_f64 S t l,
+  well_typed_lit parse_f64 S (erase t) l = true /\ default_val_lit parse_f64 S t l = LPanic PInvalidConvert /\
+  pclass_top S l (item_cty t) = Some PCPathConvert.
+Proof.
+  exists pf0, W_const_set, (RSet RI32), (LConst 0).
+  exact (conj (proj1 path_convert_refuted) (conj (proj1 (proj2 path_convert_refuted)) (proj1 (proj2 (proj2 path_convert_refuted))))).
+Qed.
+Print Assumptions C20_container_const_reference_refuted.
+
+(* still open, class nested-map: a map literal as a map KEY (only lit_into_ty looks at keys; no Rust map is hashable) *)
+Theorem C20_map_key_map_refuted : exists parse_f64 S t l,
+  well_typed_lit parse_f64 S (erase t) l = true /\ default_val_lit parse_f64 S t l = LPanic PUnexpectedLiteral /\
+  pclass_top S l (item_cty t) = Some PCNestedMap.
+Proof.
+  exists pf0, (mkLS [] []), (RMap (RMap RI8 RI8) RI8), (LMap [(LMap [(LInt 1, LInt 2)], LInt 3)]).
+  exact map_key_refuted.
+Qed.
+Print Assumptions C20_map_key_map_refuted.
 
 (* Default::default(): the model of ImplDefaultPlugin (Defaults.default_of) over the schema whose field defaults are the
    LOWERED literals (Lit.proj) holds, field for field, the value of the IDL default (present also when the field is
